@@ -5,6 +5,9 @@
 //     crypto/aeskw, crypto/padding, crypto/aescbcaead that takes a []byte parameter, with the
 //     names of those parameters (a parameter of a same-package struct type that has []byte fields
 //     is listed as "<param>.<field>");
+//   - every NON-exported function/method of those packages that is reachable from an exported one
+//     through same-package calls and takes []byte parameters (the helpers the caller's slices are
+//     handed on to): a new helper is a new obligation;
 //   - the algorithm lists of the `switch algorithm` statements of the crypto package's exported
 //     dispatchers (case clauses with their string constants resolved).
 //
@@ -33,6 +36,12 @@ type fn struct {
 func fatal(format string, a ...any) {
 	fmt.Fprintf(os.Stderr, "factgen_c17: "+format+"\n", a...)
 	os.Exit(1)
+}
+
+// `...[]byte`
+func isVariadicBytes(e ast.Expr) bool {
+	el, ok := e.(*ast.Ellipsis)
+	return ok && isByteSlice(el.Elt)
 }
 
 func isByteSlice(e ast.Expr) bool {
@@ -73,6 +82,74 @@ func recvName(fd *ast.FuncDecl) string {
 
 func lean(s string) string { return strconv.Quote(s) }
 
+// byteParams lists the []byte parameters of a function: plain `[]byte` by name, `...[]byte` as
+// "<name>...", a same-package struct with []byte fields as "<name>.<field>".
+func byteParams(pkg string, fd *ast.FuncDecl, structs map[string][]string) []string {
+	var params []string
+	for _, fl := range fd.Type.Params.List {
+		names := fl.Names
+		switch {
+		case isByteSlice(fl.Type), isVariadicBytes(fl.Type):
+			if len(names) == 0 {
+				fatal("%s.%s: unnamed []byte parameter", pkg, fd.Name.Name)
+			}
+			for _, n := range names {
+				if isVariadicBytes(fl.Type) {
+					params = append(params, n.Name+"...")
+				} else {
+					params = append(params, n.Name)
+				}
+			}
+		case mentionsBytes(fl.Type):
+			fatal("%s.%s: parameter type with nested []byte (%T)", pkg, fd.Name.Name, fl.Type)
+		default:
+			if id, ok := fl.Type.(*ast.Ident); ok {
+				if bf, ok := structs[id.Name]; ok && len(bf) > 0 {
+					for _, n := range names {
+						for _, b := range bf {
+							params = append(params, n.Name+"."+b)
+						}
+					}
+				}
+			}
+		}
+	}
+	return params
+}
+
+// callees: names of same-package functions / methods called in the body (by identifier; a method
+// call x.f(…) counts when the package declares a method f and x is not an imported package).
+func callees(fd *ast.FuncDecl, decls map[string][]*ast.FuncDecl, imports map[string]bool) []string {
+	var out []string
+	if fd.Body == nil {
+		return nil
+	}
+	ast.Inspect(fd.Body, func(n ast.Node) bool {
+		ce, ok := n.(*ast.CallExpr)
+		if !ok {
+			return true
+		}
+		switch f := ce.Fun.(type) {
+		case *ast.Ident:
+			if _, ok := decls[f.Name]; ok {
+				out = append(out, f.Name)
+			}
+		case *ast.SelectorExpr:
+			if x, ok := f.X.(*ast.Ident); ok && imports[x.Name] {
+				return true
+			}
+			for _, d := range decls[f.Sel.Name] {
+				if d.Recv != nil {
+					out = append(out, f.Sel.Name)
+					break
+				}
+			}
+		}
+		return true
+	})
+	return out
+}
+
 func main() {
 	repo := flag.String("repo", "/repo", "dapr/kit checkout")
 	out := flag.String("out", "", "output .lean file")
@@ -83,7 +160,7 @@ func main() {
 	pkgs := []struct{ dir, name string }{
 		{"crypto", "crypto"}, {"crypto/aeskw", "aeskw"}, {"crypto/padding", "padding"}, {"crypto/aescbcaead", "aescbcaead"},
 	}
-	var fns []fn
+	var fns, helpers []fn
 	consts := map[string]string{}
 	type sw struct {
 		fn    string
@@ -153,37 +230,61 @@ func main() {
 				}
 			}
 		}
+		// call graph: non-exported functions / methods reachable from the exported ones
+		decls := map[string][]*ast.FuncDecl{}
+		imports := map[string]bool{}
+		for _, f := range files {
+			for _, im := range f.Imports {
+				path, _ := strconv.Unquote(im.Path.Value)
+				name := path[strings.LastIndex(path, "/")+1:]
+				if im.Name != nil {
+					name = im.Name.Name
+				}
+				imports[name] = true
+			}
+			for _, d := range f.Decls {
+				if fd, ok := d.(*ast.FuncDecl); ok {
+					decls[fd.Name.Name] = append(decls[fd.Name.Name], fd)
+				}
+			}
+		}
+		seen := map[*ast.FuncDecl]bool{}
+		var work []*ast.FuncDecl
+		for _, ds := range decls {
+			for _, fd := range ds {
+				if fd.Name.IsExported() {
+					seen[fd] = true
+					work = append(work, fd)
+				}
+			}
+		}
+		for len(work) > 0 {
+			fd := work[0]
+			work = work[1:]
+			for _, name := range callees(fd, decls, imports) {
+				for _, c := range decls[name] {
+					if !seen[c] {
+						seen[c] = true
+						work = append(work, c)
+					}
+				}
+			}
+		}
+		for fd := range seen {
+			if fd.Name.IsExported() {
+				continue
+			}
+			if params := byteParams(p.name, fd, structs); len(params) > 0 {
+				helpers = append(helpers, fn{p.name, recvName(fd), fd.Name.Name, params})
+			}
+		}
 		for _, f := range files {
 			for _, d := range f.Decls {
 				fd, ok := d.(*ast.FuncDecl)
 				if !ok || !fd.Name.IsExported() {
 					continue
 				}
-				var params []string
-				for _, fl := range fd.Type.Params.List {
-					names := fl.Names
-					switch {
-					case isByteSlice(fl.Type):
-						if len(names) == 0 {
-							fatal("%s.%s: unnamed []byte parameter", p.name, fd.Name.Name)
-						}
-						for _, n := range names {
-							params = append(params, n.Name)
-						}
-					case mentionsBytes(fl.Type):
-						fatal("%s.%s: parameter type with nested []byte (%T)", p.name, fd.Name.Name, fl.Type)
-					default:
-						if id, ok := fl.Type.(*ast.Ident); ok {
-							if bf, ok := structs[id.Name]; ok && len(bf) > 0 {
-								for _, n := range names {
-									for _, b := range bf {
-										params = append(params, n.Name+"."+b)
-									}
-								}
-							}
-						}
-					}
-				}
+				params := byteParams(p.name, fd, structs)
 				if len(params) > 0 {
 					fns = append(fns, fn{p.name, recvName(fd), fd.Name.Name, params})
 				}
@@ -244,6 +345,16 @@ func main() {
 		}
 		return a.name < b.name
 	})
+	sort.Slice(helpers, func(i, j int) bool {
+		a, b := helpers[i], helpers[j]
+		if a.pkg != b.pkg {
+			return a.pkg < b.pkg
+		}
+		if a.recv != b.recv {
+			return a.recv < b.recv
+		}
+		return a.name < b.name
+	})
 	sort.Slice(switches, func(i, j int) bool { return switches[i].fn < switches[j].fn })
 	var sb strings.Builder
 	sb.WriteString("/-! GENERATED by harness/cmd/factgen_c17 from /repo/crypto{,/aeskw,/padding,/aescbcaead} — do not edit.\n")
@@ -258,6 +369,20 @@ func main() {
 		}
 		sep := ","
 		if i == len(fns)-1 {
+			sep = ""
+		}
+		fmt.Fprintf(&sb, "  ⟨%s, %s, %s, [%s]⟩%s\n", lean(f.pkg), lean(f.recv), lean(f.name), strings.Join(ps, ", "), sep)
+	}
+	sb.WriteString("]\n\n")
+	sb.WriteString("/-- non-exported functions and methods reachable (same-package call graph) from the exported\nones that take `[]byte` parameters: they are handed the caller's slices -/\n")
+	sb.WriteString("def helpers : List Fn := [\n")
+	for i, f := range helpers {
+		ps := make([]string, len(f.params))
+		for k, p := range f.params {
+			ps[k] = lean(p)
+		}
+		sep := ","
+		if i == len(helpers)-1 {
 			sep = ""
 		}
 		fmt.Fprintf(&sb, "  ⟨%s, %s, %s, [%s]⟩%s\n", lean(f.pkg), lean(f.recv), lean(f.name), strings.Join(ps, ", "), sep)
